@@ -19,6 +19,7 @@ Pre == <<[ci |-> 11, d |-> FALSE]>>
 MCPats == [f |-> TRUE, m |-> TRUE, x |-> TRUE]
 ASSUME PrintT(<<"PATS", ToJson(MCPats)>>)
 NoDev == {}
+CurrentDev == {}
 Both == {TRUE, FALSE}
 OnlyAllOn == {AllOn}
 =============================================================================
